@@ -14,6 +14,18 @@ import sys
 import traceback
 
 
+def impl_exc(e):
+    """True if the exception was raised inside dulwich (a finding), False if it comes from the harness
+    itself (machinery failure: re-raised by the callers)."""
+    tb = e.__traceback__
+    last = None
+    while tb is not None:
+        last = tb
+        tb = tb.tb_next
+    fn = last.tb_frame.f_code.co_filename if last else ""
+    return "/dulwich/" in fn.replace("\\", "/") and "/harness/" not in fn
+
+
 def _install(mode):
     from . import rustext
     rustext.install(mode)
@@ -89,6 +101,7 @@ def norm(kind, F):
     """Equivalences of the API that are not distinctions of the object: an absent message and an
     empty message are the same bytes; without a tagger the tag time fields carry no information."""
     F = dict(F)
+    F.pop("blank", None)
     if kind in ("commit", "tag"):
         F["message"] = F.get("message") or b""
     if kind == "tag":
@@ -108,7 +121,10 @@ def norm(kind, F):
 
 def diff_fields(kind, want, got):
     w, g = norm(kind, want), norm(kind, got)
-    return sorted(k for k in w if w[k] != g.get(k))
+    d = sorted(k for k in w if k != "blank" and w[k] != g.get(k))
+    if want.get("blank") is False and got.get("message") is not None:
+        d.append("message-absent")          # parsed from an object without blank line: message is None, not b""
+    return d
 
 
 # ----------------------------------------------------------------------------- grammar cases
@@ -172,8 +188,9 @@ class Grammar:
         de_site = f"dulwich/objects.py:{cls_name}._deserialize"
         from dulwich.objects import Commit, Tag
         cls = Commit if kind == "commit" else Tag
-        # 1. build from field values (two setter orders), serialise, name
-        for order in (None, rng):
+        # 1. build from field values (two setter orders), serialise, name.  (An object without the
+        #    blank line cannot be expressed through the API; it only arises from parsing.)
+        for order in ((None, rng) if F["blank"] else ()):
             try:
                 o = mk(F, order)
                 got = o.as_raw_string()
@@ -182,6 +199,8 @@ class Grammar:
                     self.failure(ser_site, "build-bytes", kind, key, algo, want, got)
                 self.check_ids(o, ser_site, kind, key, algo, want, "build-id")
             except Exception as e:  # noqa: BLE001
+                if not impl_exc(e):
+                    raise
                 self.failure(ser_site, f"build-exception:{type(e).__name__}", kind, key, algo, note=str(e)[:200])
         # 2. parse the canonical bytes: fields, name, unchanged re-serialisation
         try:
@@ -197,12 +216,16 @@ class Grammar:
                 self.failure(ser_site, "reserialise-unchanged", kind, key, algo, want, got)
             self.check_ids(o, ser_site, kind, key, algo, want, "reserialise-id")
         except Exception as e:  # noqa: BLE001
+            if not impl_exc(e):
+                raise
             self.failure(de_site, f"parse-exception:{type(e).__name__}", kind, key, algo, note=str(e)[:200])
         # 3. every one-field edit whose result is in the enumerated space
         fields = self.pools[kind + "Fields"]
         attrs = L.COMMIT_ATTRS if kind == "commit" else L.TAG_ATTRS
         ix = key.split(",")
         for p, f in enumerate(fields):
+            if attrs[f] is None:
+                continue
             for j in range(1, self.psize[kind][p] + 1):
                 if str(j) == ix[p]:
                     continue
@@ -226,6 +249,8 @@ class Grammar:
                     if d and got == want2:
                         self.failure(de_site, "edit-reparse:" + clause + ":" + ",".join(d), kind, key, algo)
                 except Exception as e:  # noqa: BLE001
+                if not impl_exc(e):
+                    raise
                     self.failure(ser_site, f"edit-exception:{clause}:{type(e).__name__}", kind, key, algo, note=str(e)[:200])
 
     # ---- tree
@@ -258,6 +283,8 @@ class Grammar:
                 if [tuple(x) for x in t.items()] != ents:
                     self.failure(ser_site, "items-order", "tree", key, algo, note=repr(t.items())[:300])
             except Exception as e:  # noqa: BLE001
+                if not impl_exc(e):
+                    raise
                 self.failure(ser_site, f"build-exception:{type(e).__name__}", "tree", key, algo, note=str(e)[:200])
         try:
             t = Tree.from_raw_string(2, want, object_format=fmt)
@@ -270,6 +297,8 @@ class Grammar:
             if [tuple(x) for x in got] != ents:
                 self.failure(de_site, "parse-fields-strict", "tree", key, algo, note=repr(got)[:300])
         except Exception as e:  # noqa: BLE001
+            if not impl_exc(e):
+                raise
             self.failure(de_site, f"parse-exception:{type(e).__name__}", "tree", key, algo, note=str(e)[:200])
         # edits: remove each entry; add / replace via the table (entry universe = entries seen in the table)
         have = {(n, m) for (n, m, h) in ents}
@@ -297,6 +326,8 @@ class Grammar:
                     if got != w2:
                         self.failure(ser_site, "edit-bytes:" + clause, "tree", k2, algo, w2, got)
                 except Exception as e:  # noqa: BLE001
+                if not impl_exc(e):
+                    raise
                     self.failure(ser_site, f"edit-exception:{direction}:{type(e).__name__}", "tree", key, algo, note=str(e)[:200])
 
     def _ekey(self, e, algo):
@@ -327,6 +358,8 @@ class Grammar:
                 if b.raw_length() != len(want):
                     self.failure(site + ".raw_length", "length", "blob", key, algo, len(want), b.raw_length())
             except Exception as e:  # noqa: BLE001
+                if not impl_exc(e):
+                    raise
                 self.failure(site + "." + name, f"build-exception:{type(e).__name__}", "blob", key, algo, note=str(e)[:200])
         # edits: to every other blob case, through both setters, after the name was read
         for (k2, key2) in list(self.table):
@@ -346,6 +379,8 @@ class Grammar:
                     if b.as_raw_string() != want2:
                         self.failure(f"{site}.{setter}", f"edit-bytes:{setter}", "blob", key, algo, want2[:64], b.as_raw_string()[:64])
                 except Exception as e:  # noqa: BLE001
+                if not impl_exc(e):
+                    raise
                     self.failure(f"{site}.{setter}", f"edit-exception:{type(e).__name__}", "blob", key, algo, note=str(e)[:200])
 
     @staticmethod
@@ -390,7 +425,8 @@ class Grammar:
         def size(f):
             if f["kind"] in ("commit", "tag"):
                 ix = [int(x) for x in f["key"].split(",")]
-                return min(sum(1 for i in ix if i != 1), sum(1 for i, l in zip(ix, self.psize[f["kind"]]) if i != l))
+                return min(sum(1 for i in ix if i != 1), sum(1 for i, l in zip(ix, self.psize[f["kind"]]) if i != l),
+                           1 + sum(1 for i in ix[:-2] if i != 1))
             return len(f["key"].split(" ")) if f["key"] else 0
         self.fail.sort(key=size)
         return {"n": self.n, "fail": self.fail[:3000], "nfail": len(self.fail), "samples": self.samples}
